@@ -37,3 +37,9 @@ CHECKS["C07"]["jobs"].append(
     {"name": "c07-fuzz", "bin": "c07", "pkg": ZZ + "c07", "run": "^$", "tier_only": "thorough",
      "fuzz": {"target": "FuzzVerifC07Decode", "time": {"thorough": "120s"}, "replay_test": "^TestVerifC07FuzzReplay$"},
      "shards": {"thorough": 1}, "weight": 16, "timeout": {"thorough": 900}, "mem_gb": 24})
+
+add("C10", "exploration", [
+    {"name": "c10-sortio", "bin": "c10", "pkg": ZZ + "c10", "run": "^TestVerifC10SortMergeReduce$",
+     "shards": {"quick": 8, "thorough": 16}, "checks": {"quick": 1500, "thorough": 60000},
+     "timeout": {"quick": 300, "thorough": 2400}},
+])
